@@ -31,6 +31,7 @@ class ClassTable(Table):
     or None; an untyped attribute is annotated `object` or with the type of its default."""
 
     kind = "class"
+    sentence_stripped_on_parse = True
 
     def __init__(self, word_wrap=False):
         self.wrap = word_wrap
@@ -97,6 +98,7 @@ class ArgparseTable(Table):
     argparse cannot express fall back to str; a return entry survives only with a default."""
 
     kind = "argparse"
+    sentence_stripped_on_parse = True
 
     def __init__(self, word_wrap=False, wrap_description=False):
         self.wrap = word_wrap
